@@ -581,12 +581,21 @@ pub fn run(opts: &Opts) -> Run {
         let n1 = cx.rng.range(2, 12) as usize;
         let mut a = gen_counts(&mut cx.rng, n1, 2, 0);
         let mut b = a.clone();
-        match cx.rng.below(4) {
+        match cx.rng.below(5) {
             0 => {
                 let i = cx.rng.below(b.len() as u64) as usize;
                 b[i] = 0;
                 if b.iter().filter(|c| **c > 0).count() < 2 {
                     b = a.clone();
+                }
+            }
+            4 => {
+                // the OLD table lacks a value the new literals use
+                let i = cx.rng.below(a.len() as u64) as usize;
+                let keep = a[i];
+                a[i] = 0;
+                if a.iter().filter(|c| **c > 0).count() < 2 || *a.last().unwrap() == 0 {
+                    a[i] = keep;
                 }
             }
             1 => b.push(3),
@@ -604,6 +613,14 @@ pub fn run(opts: &Opts) -> Run {
             let tb = HufEncTable::build_from_counts(&b);
             ta.can_encode(&tb)
         });
+        // oracle: a table declared reusable has a code for every value the new literals contain (otherwise the
+        // literals cannot round-trip through it)
+        cx.run.oracle_checks += 1;
+        if let Ok(Some(_)) = &r {
+            if let Some(i) = (0..b.len()).find(|&i| b[i] > 0 && a.get(i).copied().unwrap_or(0) == 0) {
+                cx.run.fail("C13", "canenc_uncovered", format!("can_encode says the table built from counts {:?} can be reused for literals with counts {:?}, but it has no code for value {}", a, b, i), format!("huf canenc {} {}", csv(&a), csv(&b)));
+            }
+        }
         cx.run.case(format!("huf canenc {} {}", csv(&a), csv(&b)), ok_or_fault(r, |o| o.map(|n| n.to_string()).unwrap_or("none".into())));
     }
 
